@@ -69,6 +69,34 @@ def _may_share(a_list, b_list):
     return False
 
 
+def canonical_priority(dsk, deps, order):
+    """Dask's static `order()` evaluated on a copy of the dependency structure whose keys carry no content tokens.
+
+    order() breaks ties by key string, and some keys embed a fresh uuid on every compute (the finalize keys of
+    `dask.compute(a, b)`), which would make the default schedule — and hence the meaning of a recorded choice
+    sequence — vary from run to run.  Keys are renamed to their token-stripped form, disambiguated by the stripped
+    names of their dependencies / dependents (and, only as a last resort, by the original string)."""
+    dependents = {k: set() for k in dsk}
+    for k, ds in deps.items():
+        for d in ds:
+            if d in dependents:
+                dependents[d].add(k)
+    base = {k: keyname(k) for k in dsk}
+    sig = {k: (base[k], tuple(sorted(base[d] for d in deps[k])), tuple(sorted(base[d] for d in dependents[k]))) for k in dsk}
+    groups = {}
+    for k in dsk:
+        groups.setdefault(sig[k], []).append(k)
+    canon = {}
+    for sg, ks in groups.items():
+        ks.sort(key=str)
+        for i, k in enumerate(ks):
+            canon[k] = "%s|%s|%s|%d" % (sg[0], ",".join(sg[1]), ",".join(sg[2]), i)
+    fake = {canon[k]: None for k in dsk}
+    fdeps = {canon[k]: {canon[d] for d in deps[k]} for k in dsk}
+    fprio = order(fake, dependencies=fdeps)
+    return {k: fprio[canon[k]] for k in dsk}
+
+
 class ControlledScheduler:
     def __init__(self, prefix=(), monitor="deps", state_fn=None):
         self.prefix = list(prefix)
@@ -82,16 +110,32 @@ class ControlledScheduler:
         self.computes = 0
         self.graph_shapes = []            # (n_tasks, max_ready) per compute
         self.max_ready = 0
+        self._depth = 0
+        self.nested_computes = 0
 
     # ------------------------------------------------------------------------------------------
     def get(self, dsk, keys, **kwargs):
+        # a task that itself computes a Dask collection (e.g. np.asarray(dask_array) inside a block function) re-enters
+        # the scheduler while the outer task is running: such nested graphs are executed in default order by a private
+        # scheduler and consume no choices (the outer task is atomic at the granularity explored here)
+        if self._depth > 0:
+            self.nested_computes += 1
+            inner = ControlledScheduler((), None)
+            return inner.get(dsk, keys)
+        self._depth += 1
+        try:
+            return self._get(dsk, keys, **kwargs)
+        finally:
+            self._depth -= 1
+
+    def _get(self, dsk, keys, **kwargs):
         from dask._task_spec import convert_legacy_graph
         from dask.order import order
         if not isinstance(dsk, Mapping):
             dsk = dsk.__dask_graph__()
         dsk = convert_legacy_graph(dsk)
-        prio = order(dsk)
         deps = {k: set(t.dependencies) for k, t in dsk.items()}
+        prio = canonical_priority(dsk, deps, order)
         missing = set().union(*deps.values()) - set(dsk) if deps else set()
         if missing:
             raise ScheduleError("graph has dangling dependencies: %r" % list(missing)[:3])
@@ -184,6 +228,9 @@ def explore_schedules(compute_fn, bound, monitor=None, max_execs=None, on_exec=N
     """Stateless deviation-bounded exploration: every schedule with <= `bound` departures from the default
     ready-task choice.  Yields nothing; calls on_exec(choices, result, scheduler) for every execution.
     Returns dict(executions, capped, max_points, max_ready)."""
+    # warm-up execution (discarded): the first call in a process may issue extra graph-construction-time computes
+    # (meta inference, JIT) that later calls do not repeat; choice sequences are only comparable between warm runs
+    run_schedule(compute_fn, (), None)
     stack = [[]]
     n = 0
     capped = False
